@@ -2,7 +2,7 @@ package node
 
 import (
 	"fmt"
-	"runtime"
+	"net/http/httptest"
 	"sort"
 	"strings"
 	"testing/synctest"
@@ -43,10 +43,10 @@ type opRec struct {
 
 type nodeCfg struct {
 	updW, scrapeW, restartW, advW int
-	overlapW                     int // a scrape in flight while an update is applied
-	minOps, maxOps               int
-	failW                        int // weight of failing scrapes (vs 10 success)
-	bigPayload                   bool
+	overlapW                      int // a scrape in flight while an update is applied
+	minOps, maxOps                int
+	failW                         int // weight of failing scrapes (vs 10 success)
+	bigPayload                    bool
 }
 
 func modelRun(cfg nodeCfg) core.RunFunc {
@@ -311,7 +311,7 @@ func modelRunBubble(tp *core.Tape, e *core.Env, cfg nodeCfg) (ops []opRec) {
 				// several 64 KiB parser blocks, handled by the unmarshal workers in parallel
 				base := GenSamples(tp, 40)
 				samples = nil
-				for len(samples) < 16000 {
+				for len(samples) < 20000 {
 					samples = append(samples, base...)
 				}
 				e.Probe("multi_block_payload_parallel")
@@ -325,13 +325,11 @@ func modelRunBubble(tp *core.Tape, e *core.Env, cfg nodeCfg) (ops []opRec) {
 			}
 			n.Targets.Set(TargetHost(h), spec)
 			at := time.Now()
-			oldProcs := 0
+			var rr *httptest.ResponseRecorder
 			if big {
-				oldProcs = runtime.GOMAXPROCS(8)
-			}
-			rr := n.ScrapeRec(h, job)
-			if big {
-				runtime.GOMAXPROCS(oldProcs)
+				sidecarsim.WithParserWorkers(8, func() { rr = n.ScrapeRec(h, job) })
+			} else {
+				rr = n.ScrapeRec(h, job)
 			}
 			total, kept, pm := Counts(samples, JobRelabel(job))
 			e.Logf("op %d scrape %d via %s fail=%q samples=%d kept=%d -> %d", i, h, job, fail, total, kept, rr.Code)
